@@ -102,6 +102,10 @@ type RecTransport struct {
 	// (nothing in the transport interface obliges it to fail); Close is still recorded.
 	AcceptAfterClose bool
 
+	// CloseErr is returned by the Close call that actually closes (a transport may report a failed goodbye,
+	// e.g. TLS close_notify on a broken pipe, and still be closed).
+	CloseErr error
+
 	// Consume mimics net.Buffers.WriteTo, which nils the entries of the slice
 	// it was given (default true).
 	NoConsume bool
@@ -241,6 +245,7 @@ func (t *RecTransport) Close() error {
 	} else {
 		t.closed = true
 		close(t.closedCh)
+		err = t.CloseErr
 	}
 	op.Err = err
 	op.Out = Tick()
